@@ -408,7 +408,7 @@ func TestVerif(t *testing.T) {
 		h.runConfig(k.Cfg, []Case{k})
 	} else {
 		cfgs := configs(c.Rand)
-		per := c.N(60, 1500)
+		per := c.N(60, 500)
 		for ci, ac := range cfgs {
 			r := c.Rand.Fork()
 			creds := credsFor(ac, r)
@@ -451,9 +451,7 @@ func TestVerif(t *testing.T) {
 
 	var sb strings.Builder
 	sb.WriteString("From Coq Require Import List NArith String.\nFrom MM Require Import Lib.Bytes Model.Socks.\nImport ListNotations.\nLocal Open Scope string_scope.\n")
-	sb.WriteString("Definition cases : list scase := \n" + policy.CoqListNL(h.coq) + ".\n")
-	sb.WriteString("Definition M := Eval vm_compute in mismatches cases.\nPrint M.\n")
-	sb.WriteString("Definition wcases : list wcase := \n" + policy.CoqListNL(h.wcoq) + ".\n")
-	sb.WriteString("Definition Mws := Eval vm_compute in wmismatches wcases.\nPrint Mws.\n")
+	sb.WriteString(policy.ChunkedCases("cases", "scase", "mismatches_from", h.coq, 1500))
+	sb.WriteString(policy.ChunkedCases("wcases", "wcase", "wmismatches_from", h.wcoq, 1500))
 	c.WriteCasesV("cases.v", sb.String())
 }
